@@ -219,13 +219,40 @@ func c04(r *engine.Report, p *engine.Program) {
 		}
 		name := engine.FuncName(impl)
 		if why, ok := restartExceptions[name]; ok {
-			r.Add("R3-restart-pending", name, impl.Pos(), engine.Discharged, "table: "+why)
+			// the placeholder must leave the record exactly as it found it: the real worker type is
+			// registered later and has to find a running/pending unit still running/pending
+			neutral := true
+			whyNot := ""
+			for _, ret := range engine.Returns(impl) {
+				if len(ret.Results) != 1 || !engine.IsNilConst(ret.Results[0]) {
+					neutral = false
+					whyNot = "it can return an error (scanForUnit then rewrites the record as Failed before the real work type is registered, and the real worker never follows the still-running job)"
+				}
+			}
+			for _, ci := range engine.CallsIn(impl) {
+				if o := engine.CalleeObj(ci.Common()); o != nil {
+					switch o.Name() {
+					case "UpdateBasicStatus", "UpdateFullStatus", "Save":
+						neutral = false
+						whyNot = "it writes the status record"
+					}
+				}
+			}
+			r.Check("R3-restart-pending", name, impl.Pos(), neutral, "table: "+why+"; verified: returns nil on every path and writes nothing", "the placeholder for not-yet-registered work types does not leave the record alone: "+whyNot)
 			continue
 		}
 		ok, why := restartFailsPending(p, impl, constIntVal(pendingC))
 		r.Check("R3-restart-pending", name, impl.Pos(), ok, why, why)
 	}
 	r.Min("R3-restart-pending", 3)
+	// R6 the output of a remote unit is resumed from what is on disk (nothing kept only in memory)
+	if mrs := p.Func("(*workceptor.remoteUnit).monitorRemoteStdout"); mrs != nil {
+		r.Check("R6-output-resume", "monitorRemoteStdout: the mirror resumes from the size of the local copy on disk", mrs.Pos(), mirrorOffsetOK(mrs),
+			"the requested offset is stdoutSize(rw.UnitDir()), re-read from disk in every round: a restarted daemon continues exactly where the killed one stopped",
+			"the mirror's offset is not re-derived from the local file: after a restart it asks for the wrong offset and the stored output has a repeated or missing stretch")
+	} else {
+		r.Broken("monitorRemoteStdout not found")
+	}
 
 	// R3c a started remote unit is always re-attached at restart: success only through startOrRestart
 	if rr := p.Func("(*workceptor.remoteUnit).Restart"); rr != nil {
